@@ -1,5 +1,6 @@
 //! pvharness <property> --seed N --count K --out DIR [--tmp DIR]
 //! Runs the real crate on generated inputs and writes cases / observations for the Coq model to re-evaluate.
+mod c05;
 mod c07;
 mod c08;
 mod c09;
@@ -15,8 +16,13 @@ mod gen;
 mod out;
 mod rng;
 mod snap;
+mod textgen;
 mod sx;
 
+thread_local! {
+    /// where the last observed panic of the crate happened (file:line), for the site histogram
+    pub static LAST_PANIC: std::cell::RefCell<String> = const { std::cell::RefCell::new(String::new()) };
+}
 thread_local! {
     /// set while a call into the crate runs under catch_unwind: panics there are observations
     pub static QUIET: std::cell::Cell<bool> = const { std::cell::Cell::new(false) };
@@ -65,11 +71,15 @@ fn main() {
         std::panic::set_hook(Box::new(move |info| {
             if !QUIET.with(|q| q.get()) {
                 default(info);
+            } else if let Some(loc) = info.location() {
+                let f = loc.file().rsplit("/src/").next().unwrap_or("").to_string();
+                LAST_PANIC.with(|p| *p.borrow_mut() = format!("{}:{}", f, loc.line()));
             }
         }));
     }
     let mut out = out::Out::new(&outdir);
     match prop.as_str() {
+        "C05" => c05::run(seed, count, thorough, &mut out),
         "C07" => c07::run(seed, count, &mut out, &tmp),
         "C08" => c08::run(seed, count, thorough, &mut out),
         "C09" => c09::run(seed, count, thorough, &mut out),
